@@ -54,3 +54,16 @@ check("C17", "exploration", "runtime retention monitor: reachable-node count sam
       "in the second half never exceeds the first quarter's maximum. One recorded known finding (xml inter-record text nodes).",
       "Retention = reachable idr nodes (the statement's metric). Records of a stream share one shape.",
       "DESIGN.md section 3 C17")
+
+check("C10", "exploration", "runtime metamorphic monitor over per-position transcripts (concatenation, permutation, failing-record replacement)",
+      "Held on every relation instance (quick 8e3, thorough 3e5) over all seven formats and schemas that address only the record: T(A++B)=T(A)++T(B), "
+      "T(perm A)=perm T(A), and a failing record (cast / custom function / double match) changes exactly its own position into a per-record failure.",
+      "Only the location prefix (line/segment/char numbers) of error messages is masked.",
+      "DESIGN.md section 3 C10")
+
+check("C15", "exploration", "runtime self-differential monitor over histories and processes + checksum pair oracle",
+      "Held on every (schema, input, externals) (quick 840, thorough 2.8e4 cases): identical transcripts on repeat, with a re-created Schema, after 5-25 "
+      "other transforms in the same process and in a fresh process with another GOMAXPROCS; checksums equal for equal raw records and different for "
+      "records differing in one leaf value. Two recorded known findings (xml attributes not entering the checksum).",
+      "now/uuid/random scripts excluded. XML mixed-content text is reported, not decided.",
+      "DESIGN.md section 3 C15")
